@@ -161,16 +161,70 @@ def _frames(arr, conf, shape):
     return arr.reshape(f, rows, cols)
 
 
+def ref_acs(conf: dict, shape, cf) -> dict | None:
+    """the ACS region of a request from first principles (independent of anything the process under test has cached):
+    line generators: `num_low_freqs` centre columns at pad = (N - L + 1) // 2; 2-D generators: the centred disc of
+    radius int(sqrt(rows * cols * cf / pi)).  The float glue is the documented formula."""
+    gen = conf["gen"]
+    rows, cols = shape[-3], shape[-2]
+    dyn = conf.get("mode", "static") != "static" or gen in RC.KT
+    F = shape[-4] if dyn else 1
+    if gen in ("Gaussian2D", "VariableDensityPoisson"):
+        radius = int(math.sqrt(rows * cols * cf / math.pi))
+        cx, cy = rows // 2, cols // 2
+        bits = [1 if (x - cx) ** 2 + (y - cy) ** 2 < radius ** 2 else 0 for x in range(rows) for y in range(cols)]
+        return {"acs_count": [sum(bits)] * F, "acs_row": [bits[:cols]] * F, "acs_bits": [bits] * F}
+    if gen in ("FastMRIRandom", "CartesianRandom", "FastMRIEquispaced", "CartesianEquispaced", "Gaussian1D"):
+        L = int(round(cols * cf)) if (cf < 1.0 or gen == "Gaussian1D") else int(cf)
+        pad = (cols - L + 1) // 2
+        row = [1 if pad <= i < pad + L else 0 for i in range(cols)]
+        return {"acs_count": [sum(row) * rows] * F, "acs_row": [row] * F}
+    return None
+
+
 def job_case(args: dict) -> dict:
     """one real call (plus the return_acs call for the ACS) with everything the model needs"""
+    return _one_case(RC.build(args["conf"]), args["conf"], args["shape"], args["seed"])
+
+
+def job_history(args: dict) -> list:
+    """a call history inside THIS process: several generator objects (same and different classes, fresh and reused)
+    created and called in sequence, sharing k-space sizes and centre fractions.  Mask steps are recorded like `job_case`
+    but with the ACS region from first principles (`acs_ref`), so that nothing the process may have cached or overwritten
+    can vouch for itself; ACS steps record what `return_acs=True` answers at that point of the history."""
+    insts: dict = {}
+    out = []
+    for st in args["steps"]:
+        conf, shape, seed = st["conf"], st["shape"], st["seed"]
+        key = st.get("inst")
+        if key is None or key not in insts:
+            mf = RC.build(conf)
+            if key is not None:
+                insts[key] = mf
+        else:
+            mf = insts[key]
+        if st["kind"] == "acs":
+            r = RC.run_call(mf, shape, True, seed)
+            rec = {"err": r["err"]}
+            if r["err"] is None:
+                rec["count"] = [int(x.sum()) for x in _frames(r.pop("_array"), conf, shape)]
+            out.append(rec)
+        else:
+            out.append(_one_case(mf, conf, shape, seed, acs_ref=st["acs_ref"]))
+    return out
+
+
+def _one_case(mf, conf: dict, shape, seed, acs_ref: dict | None = None) -> dict:
     import numpy as np
 
-    conf, shape, seed = args["conf"], args["shape"], args["seed"]
-    mf = RC.build(conf)
-    acs = RC.run_call(mf, shape, True, seed)
-    out = {"acs_err": acs["err"]}
     rows, cols = shape[-3], shape[-2]
-    if acs["err"] is None:
+    if acs_ref is not None:
+        acs = {"err": None}
+        out = dict(acs_ref, acs_err=None)
+    else:
+        acs = RC.run_call(mf, shape, True, seed)
+        out = {"acs_err": acs["err"]}
+    if acs["err"] is None and acs_ref is None:
         a = _frames(acs.pop("_array"), conf, shape)
         out["acs_count"] = [int(x.sum()) for x in a]
         out["acs_row"] = [[int(v) for v in x[0]] for x in a]
@@ -454,7 +508,9 @@ def gen_cases(ctx: Ctx) -> list[dict]:
                     kw["tol"] = rng.choice([0.1, 0.3, 0.5])
                 if rng.random() < 0.3:
                     kw["max_attempts"] = rng.choice([5, 30])
-                if rng.random() < 0.3:
+                if i % 8 == 2:
+                    kw["slopes"] = [0.5, 60]        # a lower end other than the default 0, in every run
+                elif rng.random() < 0.3:
                     kw["slopes"] = rng.choice([[0, 20], [0.5, 60], [0, 200]])
                 conf["kwargs"] = kw
             if gen == "KtRadial":
@@ -491,6 +547,90 @@ def gen_cases(ctx: Ctx) -> list[dict]:
     if ctx.thorough:
         add("Gaussian2D", 6, [96, 128], two_d=True, modes=["static"])
     return cases
+
+
+def gen_histories(ctx: Ctx) -> list[list[dict]]:
+    """process-level call histories: several generator objects of the same and of different classes, created and called
+    in sequence in one process, sharing the k-space size and the centre fraction (so that anything cached per size /
+    centre fraction, or any array shared between calls, is hit again with another acceleration, mode or class)"""
+    rng = ctx.rng
+    out = []
+
+    def step(kind, gen, accs, cfs, shape, mode="static", inst=None, **kw):
+        conf = {"gen": gen, "accelerations": list(accs), "center_fractions": list(cfs), "mode": mode}
+        if kw:
+            conf["kwargs"] = kw
+        st = {"kind": kind, "conf": conf, "shape": list(shape), "seed": rng.randrange(2 ** 31), "inst": inst}
+        if kind == "mask":
+            st["acs_ref"] = None if len(set(cfs)) > 1 else ref_acs(conf, shape, cfs[0])
+        return st
+
+    for _ in range(ctx.budget(2, 10)):
+        steps = []
+        rows, cols = rng.choice([24, 32, 40]), rng.choice([24, 32, 48])
+        cf2 = round(rng.uniform(0.02, 0.06), 3)
+        lo, hi, mid = rng.choice([2, 3]), rng.choice([6, 8, 10]), rng.choice([4, 5])
+        s2, d2 = [rows, cols, 2], [2, rows, cols, 2]
+        steps += [
+            step("mask", "Gaussian2D", [lo], [cf2], s2),
+            step("mask", "Gaussian2D", [hi], [cf2], s2),                       # another object, same size and centre fraction
+            step("acs", "Gaussian2D", [hi], [cf2], s2),
+            step("mask", "VariableDensityPoisson", [mid], [cf2], s2),
+            step("acs", "VariableDensityPoisson", [mid], [cf2], s2),
+            step("mask", "Gaussian2D", [hi], [cf2], d2, mode="dynamic"),
+            step("mask", "Gaussian2D", [lo, hi], [cf2, cf2], s2, inst="g2multi"),  # one function, two accelerations, one centre fraction
+            step("mask", "Gaussian2D", [lo, hi], [cf2, cf2], s2, inst="g2multi"),
+            step("mask", "Gaussian2D", [lo, hi], [cf2, cf2], s2, inst="g2multi"),
+            step("mask", "VariableDensityPoisson", [hi], [cf2], s2, crop_corner=True),
+            step("mask", "Gaussian2D", [mid], [cf2], s2),
+        ]
+        N, N2 = rng.randint(48, 200), rng.randint(48, 200)
+        cf1 = round(rng.uniform(0.03, 0.07), 3)
+        r1 = rng.choice([1, 3])
+        s1, t1, d1 = [r1, N, 2], [r1, N2, 2], [3, r1, N, 2]
+        steps += [
+            step("mask", "Gaussian1D", [lo], [cf1], s1, inst="g1"),
+            step("mask", "Gaussian1D", [hi], [cf1], s1),
+            step("acs", "Gaussian1D", [hi], [cf1], s1),
+            step("mask", "FastMRIEquispaced", [hi], [cf1], s1, inst="eq"),
+            step("mask", "FastMRIRandom", [mid], [cf1], s1),
+            step("mask", "Gaussian1D", [lo], [cf1], t1, inst="g1"),                 # same object, other width
+            step("mask", "FastMRIEquispaced", [hi], [cf1], d1[:1] + t1, mode="dynamic"),
+            step("mask", "FastMRIEquispaced", [hi], [cf1], t1, inst="eq"),
+            step("mask", "Gaussian1D", [lo, hi], [cf1, cf1], s1, inst="g1multi"),
+            step("mask", "Gaussian1D", [lo, hi], [cf1, cf1], s1, inst="g1multi"),
+            step("acs", "FastMRIEquispaced", [hi], [cf1], s1, inst="eq"),
+            step("mask", "Gaussian1D", [mid], [cf1], d1, mode="multislice"),
+        ]
+        out.append(steps)
+    return out
+
+
+def _run_history(steps: list[dict], budget: float = 240) -> list | None:
+    """the whole history in one FRESH process"""
+    w = RC.Worker()
+    try:
+        return w.call(MOD, "job_history", {"steps": steps}, budget=budget)
+    finally:
+        w.close()
+
+
+def _history_cases(steps: list[dict], recs: list[dict]) -> tuple[list[dict], list[dict]]:
+    """(mask steps as cases for the correspondence / the budget oracle, ACS steps with their reference)"""
+    cases, acs = [], []
+    for i, (st, rec) in enumerate(zip(steps, recs)):
+        prefix = [{k: v for k, v in s_.items() if k != "acs_ref"} for s_ in steps[:i + 1]]
+        rep = {"op": "history", "steps": prefix, "step": i}
+        if st["kind"] == "mask":
+            if st.get("acs_ref") is None:
+                # equal centre fractions were required for a reference; otherwise skip
+                continue
+            cases.append({"conf": st["conf"], "shape": st["shape"], "seed": st["seed"], "res": rec, "infeasible_by_design": False,
+                          "rep": rep, "history_step": i})
+        else:
+            ref = ref_acs(st["conf"], st["shape"], st["conf"]["center_fractions"][0])
+            acs.append({"st": st, "rec": rec, "ref": ref, "rep": rep})
+    return cases, acs
 
 
 _RUN: dict = {}
@@ -534,9 +674,13 @@ def _safe(store: dict, w, fn: str, args: dict, budget: float, what: dict):
 def _run_cases(ctx: Ctx, store: dict):
     w = RC.Worker()
     store["cases"], store["hangs"], store["crashes"] = [], [], []
+    nhang: dict = {}
     try:
         w.start()
         for c in gen_cases(ctx):
+            if nhang.get(c["conf"]["gen"], 0) >= 2:
+                store.setdefault("skipped_after_hangs", []).append(c["conf"]["gen"])
+                continue      # two calls of this generator already failed to return: the finding is made, keep the run bounded
             try:
                 c["res"] = w.call(MOD, "job_case", {"conf": c["conf"], "shape": c["shape"], "seed": c["seed"]}, budget=90)
             except RC.Hang as e:
@@ -548,6 +692,7 @@ def _run_cases(ctx: Ctx, store: dict):
                                              "key": "generator-crashes/VariableDensityPoisson/active-list-overrun"})
                 else:
                     store["hangs"].append({"case": what, "budget": e.budget})
+                    nhang[c["conf"]["gen"]] = nhang.get(c["conf"]["gen"], 0) + 1
                 continue
             except RC.WorkerFailure as e:
                 # the process running the real code died (or the job failed): a finding with its arguments, never exit 2;
@@ -555,6 +700,24 @@ def _run_cases(ctx: Ctx, store: dict):
                 store["crashes"].append(_classify_crash({k: c[k] for k in ("conf", "shape", "seed")}, str(e)))
                 continue
             store["cases"].append(c)
+        # process-level call histories (each in a fresh process)
+        store["hist_cases"], store["hist_acs"] = [], []
+        for steps in gen_histories(ctx):
+            for st in steps:          # the reference needs the step's own ACS reference filled in for multi-pair steps too
+                if st["kind"] == "mask" and st.get("acs_ref") is None and len(set(st["conf"]["center_fractions"])) == 1:
+                    st["acs_ref"] = ref_acs(st["conf"], st["shape"], st["conf"]["center_fractions"][0])
+            try:
+                recs = _run_history(steps)
+            except RC.Hang as e:
+                store["hangs"].append({"case": {"conf": {"gen": "history"}, "shape": None, "seed": None, "steps": steps}, "budget": e.budget})
+                continue
+            except RC.WorkerFailure as e:
+                store["crashes"].append({"case": {"conf": {"gen": "history"}, "shape": None, "seed": None, "steps": steps},
+                                         "how": str(e)[:200], "key": "generator-crashes/history"})
+                continue
+            hc, ha = _history_cases(steps, recs)
+            store["hist_cases"] += hc
+            store["hist_acs"] += ha
         # argument forms and call sites (CreateSamplingMask, apply_mask)
         store["forms"] = []
         fr = ctx.rng
@@ -670,9 +833,11 @@ def correspondence(ctx: Ctx):
 
 def _correspondence(ctx: Ctx, run: dict):
     skipped_fragile = 0
-    for c in run["cases"]:
+    for c in run["cases"] + run.get("hist_cases", []):
         for item in _case_lines(ctx, c):
-            item["src"] = {"op": "case", "conf": c["conf"], "shape": c["shape"], "seed": c["seed"]}
+            item["src"] = c.get("rep") or {"op": "case", "conf": c["conf"], "shape": c["shape"], "seed": c["seed"]}
+            if "history_step" in c:
+                item["bucket"] = "history/" + item.get("bucket", "")
             yield item
     # exhaustive enumeration: every offset of every (N, R, cf)
     for e in run["enum"]:
@@ -859,20 +1024,33 @@ def oracle(ctx: Ctx, deep: bool = False):
     worst = {"equi": 0.0, "gauss": 0.0, "poisson": 0.0, "poisson_crop": 0.0, "ktradial": 0.0, "ktradial_crop": 0.0}
     n_opts = {"crop_corner": 0, "tol": 0, "max_attempts": 0, "slopes": 0}
     kt_report: dict = {}
-    for c in store["cases"]:
+    for ha in store.get("hist_acs", []):
+        st, rec, ref = ha["st"], ha["rec"], ha["ref"]
+        g = st["conf"]["gen"]
+        ctx.count(("hist-acs", g, tuple(st["shape"]), st["seed"], ha["rep"]["step"]), True, bucket=f"oracle/history/acs/{g}")
+        if rec["err"] is not None:
+            yield Violation(f"acs-after-history/{g}", f"{g}: return_acs=True raises {rec['err']} at step {ha['rep']['step']} of a call history",
+                            ha["rep"])
+        elif ref is not None and rec["count"] != ref["acs_count"]:
+            yield Violation(f"acs-after-history/{g}",
+                            f"{g}: at step {ha['rep']['step']} of a call history in one process return_acs=True answers {rec['count']} "
+                            f"samples per frame; the centre region of this request has {ref['acs_count']}",
+                            dict(ha["rep"], observed=rec["count"], expected=ref["acs_count"]))
+    for c in store["cases"] + store.get("hist_cases", []):
         conf, res, shape = c["conf"], c["res"], c["shape"]
         gen = conf["gen"]
         R = float(_chosen_R(c))
         rows, cols = shape[-3], shape[-2]
-        rep = {"op": "case", "conf": conf, "shape": shape, "seed": c["seed"]}
+        rep = c.get("rep") or {"op": "case", "conf": conf, "shape": shape, "seed": c["seed"]}
         two_d = gen in RC.TWO_D
         total = rows * cols if two_d else cols
         target = total / R
         ok_call = res["err"] is None
-        ctx.count(("oracle", gen, conf["mode"], tuple(shape), R, str(conf["center_fractions"]), str(c["seed"])),
+        ctx.count(("oracle", gen, conf["mode"], tuple(shape), R, str(conf["center_fractions"]), str(c["seed"]), c.get("history_step")),
                   ok_call, sample={"gen": gen, "mode": conf["mode"], "shape": shape, "R": R,
                                    "cf": conf["center_fractions"][0], "count": res.get("count"), "target": round(target, 3)},
-                  bucket=f"oracle/{gen}/{conf['mode']}" + ("" if ok_call else "/" + str(res["err"])))
+                  bucket=("oracle/history/" if "history_step" in c else "oracle/") + f"{gen}/{conf['mode']}"
+                         + ("" if ok_call else "/" + str(res["err"])))
         if not ok_call:
             if conf.get("kwargs", {}).get("uniform_range"):
                 if res["err"] != "NotImplementedError":
@@ -1075,6 +1253,13 @@ def _replay_corr(rep: dict, w) -> bool:
     try:
         if rep.get("src_op") == "enum":
             run["enum"] = w.call(MOD, "job_equi_enum", {"pairs": [(rep["gen"], rep["R"], rep["cf"])], "widths": [rep["N"]]}, budget=120)
+        elif rep.get("src_op") == "history":
+            steps = [dict(st) for st in rep["steps"]]
+            for st in steps:
+                if st["kind"] == "mask" and len(set(st["conf"]["center_fractions"])) == 1:
+                    st["acs_ref"] = ref_acs(st["conf"], st["shape"], st["conf"]["center_fractions"][0])
+            hc, _ = _history_cases(steps, _run_history(steps))
+            run["hist_cases"] = [c for c in hc if c["history_step"] == len(steps) - 1]
         else:
             c = {"conf": rep["conf"], "shape": rep["shape"], "seed": rep["seed"], "infeasible_by_design": False}
             c["res"] = w.call(MOD, "job_case", {"conf": c["conf"], "shape": c["shape"], "seed": c["seed"]}, budget=60)
@@ -1099,6 +1284,19 @@ def replay(rep: dict) -> bool:
             except (RC.Hang, RC.WorkerFailure):
                 return True
             store = {"cases": [c], "hangs": [], "enum": [], "stats": []}
+        elif rep.get("op") == "history":
+            steps = [dict(st) for st in rep["steps"]]
+            for st in steps:
+                if st["kind"] == "mask" and len(set(st["conf"]["center_fractions"])) == 1:
+                    st["acs_ref"] = ref_acs(st["conf"], st["shape"], st["conf"]["center_fractions"][0])
+            try:
+                recs = _run_history(steps)
+            except (RC.Hang, RC.WorkerFailure):
+                return True
+            hc, ha = _history_cases(steps, recs)
+            last = len(steps) - 1
+            store = {"cases": [], "hangs": [], "enum": [], "stats": [],
+                     "hist_cases": [c for c in hc if c["history_step"] == last], "hist_acs": [a for a in ha if a["rep"]["step"] == last]}
         elif rep.get("op") == "forms":
             fc = {"conf": rep["conf"], "shape": rep["shape"], "seed": rep["seed"] if rep.get("seed") is not None else 0}
             try:
